@@ -452,6 +452,7 @@ func runC12(r *Run) {
 	// small frames, every third one signed (nonce + signature trailer), both versions: whole frames after the handshake
 	r.c12TCPSequential(1, 16, 24)
 	r.c12TCPSequential(2, 16, 24)
+	c18DialContexts(r) // the first two bytes are the requested handshake, reserve nibble included
 	gs := [][4]int{{2, 40, 16, 0}, {8, 30, 16, 1024}, {16, 20, 4, 0}}
 	if r.thorough() {
 		gs = append(gs, [4]int{8, 200, 16, 1024}, [4]int{4, 100, 1, 0}, [4]int{16, 100, 8, 1})
@@ -463,4 +464,39 @@ func runC12(r *Run) {
 	r.c12WS(1, 16, 12, false)
 	r.c12WS(2, 4, 12, false)
 	r.c12WS(1, 256, 50, true)
+}
+
+// c18DialContexts: dial through the registered dialers with handshakes whose reserve nibble is not zero; the peer must
+// read exactly the two handshake bytes and the connection's context must hold the requested version, codec, platform.
+func c18DialContexts(r *Run) {
+	for _, h := range []protocol.Handshake{{Version: 1, Codec: 1, Platform: 9, Reserve: 0}, {Version: 1, Codec: 2, Platform: 9, Reserve: 1},
+		{Version: 2, Codec: 1, Platform: 3, Reserve: 5}, {Version: 2, Codec: 15, Platform: 15, Reserve: 15}} {
+		peer := newTCPPeer()
+		u, _ := url.Parse(peer.url())
+		d, _ := client.GetDialer("tcp")
+		hh := h
+		o := &client.DialOptions{Timeout: 2 * time.Second, AuthTimeout: time.Second, WriteQueueSize: 4, ReadQueueSize: 4, ReadBufferSize: 4096}
+		conn, err := d(context.Background(), newRecLogger(), u, &hh, o)
+		if err != nil {
+			peer.shutdown()
+			continue
+		}
+		pc := peer.accept(2 * time.Second)
+		cs := fmt.Sprintf("tcp dial with handshake version %d codec %d platform %d reserve %d", h.Version, h.Codec, h.Platform, h.Reserve)
+		if pc != nil && pc.readHandshake(2*time.Second) {
+			want := []byte{h.Version&15 | uint8(h.Codec)<<4, uint8(h.Platform)&15 | h.Reserve<<4}
+			if !bytes.Equal(pc.hs, want) {
+				r.violate(Violation{What: "the first two bytes on the connection are not the requested handshake", Case: cs, Impl: hx(pc.hs), Expect: hx(want)})
+			}
+		}
+		ctx := conn.Context()
+		if ctx.Version != h.Version || ctx.Codec != h.Codec || ctx.Platform != h.Platform {
+			r.violate(Violation{What: "the dialled connection's context does not carry the requested version / codec / platform", Case: cs,
+				Impl: fmt.Sprintf("%d %d %d", ctx.Version, ctx.Codec, ctx.Platform)})
+		}
+		conn.Close(nil)
+		peer.shutdown()
+		r.st.Evaluations++
+	}
+	r.count("dial.contexts")
 }
